@@ -559,6 +559,9 @@ pub fn init() {
             (libc::SIGBUS, on_other as *const () as usize),
             (libc::SIGILL, on_other as *const () as usize),
             (libc::SIGFPE, on_other as *const () as usize),
+            // a non-unwinding panic inside rbpf (e.g. rustc's misaligned-dereference check) ends
+            // in abort(): an outcome of the execution, not the death of the worker
+            (libc::SIGABRT, on_other as *const () as usize),
         ] {
             let mut sa: libc::sigaction = std::mem::zeroed();
             sa.sa_sigaction = h;
